@@ -186,11 +186,7 @@ theorem advanceFrame_cons (cfg : Cfg) (st : RState) (h0 : st.readRemaining = 0) 
         input := r1,
         readRemaining := h.len7,
         readDecompress := h.rsv1 && cfg.deflate,
-        readFinal := if isDataOp h.opcode || h.opcode == 0 then h.fin else st.readFinal,
-        devs := if h.rsv1 && cfg.deflate then
-                  (if isControlOp h.opcode then st.devs ++ [Dev.rsv1Control]
-                   else if h.opcode == 0 then st.devs ++ [Dev.rsv1Continuation] else st.devs)
-                else st.devs }
+        readFinal := if isDataOp h.opcode || h.opcode == 0 then h.fin else st.readFinal }
       if !(headerErrs cfg st.readFinal h).isEmpty then
         handleProtocolError st1 (", ".intercalate (headerErrs cfg st.readFinal h))
       else frameBody cfg h st1 := by
@@ -205,7 +201,10 @@ theorem dataFrame_over (cfg : Cfg) (op : Nat) (st : RState)
   unfold dataFrame
   simp only []
   by_cases h63 : st.readLength + st.readRemaining ≥ two63
-  · rw [if_pos h63]; exact ⟨_, rfl, rfl⟩
+  · rw [if_pos h63]
+    obtain ⟨w, c, hw⟩ := writeControl_fields
+      { st with readLength := st.readLength + st.readRemaining } opClose (formatClose 1009 [])
+    exact ⟨_, rfl, by rw [hw]⟩
   · rw [if_neg h63]
     have : (decide (cfg.readLimit > 0) && decide (st.readLength + st.readRemaining > cfg.readLimit)) = true := by
       simp only [overLimit, Bool.or_eq_true, decide_eq_true_eq] at h
@@ -258,8 +257,8 @@ theorem processControl_close (payload : Bytes) (st : RState) (op : Nat) (h9 : (o
     obtain ⟨w, c, hw⟩ := writeControl_fields st opClose (formatClose 1005 [])
     exact ⟨_, _, rfl, by simp [hw], by simp [closeEvent, RErr.toEvent]⟩
   | [x] =>
-    obtain ⟨w, c, hw⟩ := writeControl_fields { st with devs := st.devs ++ [Dev.close1] } opClose (formatClose 1005 [])
-    exact ⟨_, _, rfl, by simp [hw], by simp [closeEvent, RErr.toEvent, Quirks.go]⟩
+    obtain ⟨st', he, hev⟩ := handleProtocolError_events st "invalid close payload length"
+    exact ⟨_, _, he, hev, by simp [closeEvent, RErr.toEvent, Quirks.go]⟩
   | a :: b :: text =>
     simp only [closeEvent]
     by_cases hc : (!goValidCloseCode (a.toNat * 256 + b.toNat)) = true
@@ -406,11 +405,7 @@ theorem run_eq_decodeQ (cfg : Cfg) : ∀ (fuel : Nat) (frag : Option Frag) (st :
         simp only [hv, Bool.not_true, Bool.not_false, if_true]
         obtain ⟨st', he, hev⟩ := handleProtocolError_events
           { st with input := r1, readRemaining := h.len7, readDecompress := h.rsv1 && cfg.deflate,
-                    readFinal := if isDataOp h.opcode || h.opcode == 0 then h.fin else frag.isNone,
-                    devs := if h.rsv1 && cfg.deflate then
-                              (if isControlOp h.opcode then st.devs ++ [Dev.rsv1Control]
-                               else if h.opcode == 0 then st.devs ++ [Dev.rsv1Continuation] else st.devs)
-                            else st.devs }
+                    readFinal := if isDataOp h.opcode || h.opcode == 0 then h.fin else frag.isNone }
           (", ".intercalate (headerErrs cfg frag.isNone h))
         rw [hrf] at *
         rw [he]
@@ -444,11 +439,8 @@ theorem run_eq_decodeQ (cfg : Cfg) : ∀ (fuel : Nat) (frag : Option Frag) (st :
               -- the state after the key: only its relevant fields matter from here on
               have flds := afterKey_fields
                 { st with input := r1, readRemaining := h.len7, readDecompress := h.rsv1 && cfg.deflate,
-                          readFinal := if isDataOp h.opcode || h.opcode == 0 then h.fin else frag.isNone,
-                          devs := if h.rsv1 && cfg.deflate then
-                                    (if isControlOp h.opcode then st.devs ++ [Dev.rsv1Control]
-                                     else if h.opcode == 0 then st.devs ++ [Dev.rsv1Continuation] else st.devs)
-                                  else st.devs } h.masked key r2 r3 len
+                          readFinal := if isDataOp h.opcode || h.opcode == 0 then h.fin else frag.isNone }
+                h.masked key r2 r3 len
               simp only [] at flds
               generalize afterKey _ h.masked key r2 r3 len = st3 at flds ⊢
               obtain ⟨f_in, f_rem, f_fin, f_len, f_dec, f_ev, f_key⟩ := flds
@@ -673,6 +665,76 @@ theorem decodeQ_go_eq_rfc (cfg : Cfg) (accept : Nat → Bool) : ∀ (fuel : Nat)
                         rw [ih _ _ (fun hm => hp (List.mem_cons_of_mem _ hm))]
                     · simp only [h9, if_true] at hp ⊢
                       rw [ih _ _ (fun hm => hp (List.mem_cons_of_mem _ hm))]
+      )
+
+/-- equal, or equal up to the last event, which is "too big" on the left where it is "protocol
+error" on the right -/
+def EqUptoMsb (A B : List Event) : Prop :=
+  A = B ∨ ∃ pre, A = pre ++ [Event.tooBig] ∧ B = pre ++ [Event.protoError]
+
+theorem EqUptoMsb.rfl' (A : List Event) : EqUptoMsb A A := Or.inl rfl
+
+theorem EqUptoMsb.cons (e : Event) {A B : List Event} (h : EqUptoMsb A B) : EqUptoMsb (e :: A) (e :: B) := by
+  rcases h with h | ⟨pre, h1, h2⟩
+  · exact Or.inl (by rw [h])
+  · exact Or.inr ⟨e :: pre, by rw [h1]; rfl, by rw [h2]; rfl⟩
+
+/-- With only the `msbAsTooBig` relaxation left, the relaxed and the RFC decoder agree on every
+stream, except that a 64-bit length with the top bit set ends the event list with "too big"
+instead of "protocol error". -/
+theorem decodeQ_go_vs_rfc (cfg : Cfg) (accept : Nat → Bool) : ∀ (fuel : Nat) (frag : Option Frag)
+    (bs : Bytes), EqUptoMsb (decodeQ Quirks.go cfg accept fuel frag bs)
+      (decodeQ Quirks.rfc cfg accept fuel frag bs) := by
+  intro fuel
+  induction fuel with
+  | zero => intro frag bs; exact Or.inl rfl
+  | succ n ih =>
+    intro frag bs
+    match bs with
+    | [] => simp [decodeQ, EqUptoMsb]
+    | [_] => simp [decodeQ, EqUptoMsb]
+    | b0 :: b1 :: r1 =>
+      cases frag <;> (
+        simp only [decodeQ]
+        generalize parseHdr b0 b1 = h
+        have hvq : ∀ b, hdrViolation Quirks.go cfg b h = hdrViolation Quirks.rfc cfg b h := fun _ => rfl
+        have hcq : ∀ p, closeEvent Quirks.go accept p = closeEvent Quirks.rfc accept p := fun _ => rfl
+        simp only [hvq, hcq]
+        split
+        · exact Or.inl rfl
+        · cases hext : extLen h.len7 r1 with
+          | none => exact Or.inl rfl
+          | some v =>
+            obtain ⟨len, r2⟩ := v
+            simp only []
+            by_cases hge : len ≥ two63
+            · simp only [hge, if_true]
+              exact Or.inr ⟨[], rfl, rfl⟩
+            · simp only [hge, if_false]
+              cases hk : takeKey h.masked r2 with
+              | none => exact Or.inl rfl
+              | some kv =>
+                obtain ⟨key, r3⟩ := kv
+                simp only []
+                cases hctl : isControlOp h.opcode
+                · simp only [Bool.false_eq_true, if_false]
+                  split
+                  · exact Or.inl rfl
+                  · split
+                    · exact Or.inl rfl
+                    · split
+                      · split
+                        · exact Or.inl rfl
+                        · exact EqUptoMsb.cons _ (ih _ _)
+                      · exact ih _ _
+                · simp only [if_true]
+                  split
+                  · exact Or.inl rfl
+                  · split
+                    · exact EqUptoMsb.cons _ (ih _ _)
+                    · split
+                      · exact EqUptoMsb.cons _ (ih _ _)
+                      · exact Or.inl rfl
       )
 
 end CentrifugeVerif.WS.Reader
